@@ -5,6 +5,8 @@ Driver for C12. One op per line, state = `PB.Api.St` (reset by a `#` line).
 
   keys <raw>/<view> …      set core/apiKeys; view = E | K:<path>:<read>:<write>:<exp>, exp = - | B | <t>
   cfgchange                another "config change" event
+  overlap <A…> // <B…>     core/apiKeys is set to A and then to B while the import of A is still in
+                           progress (entries without expiry); answer = the key map after both imports
   dev 0|1                  set core/devMode
   authset 0|1              authenticator registered?
   storm 0|1                harness-only scheduling aid (no effect on the model)
@@ -19,7 +21,7 @@ Driver for C12. One op per line, state = `PB.Api.St` (reset by a `#` line).
 All strings are hex (`-` = empty). The raw parts are for the implementation only.
 -/
 namespace PB.Drv.C12
-open PB PB.Api
+open PB PB.Api PB.Gen.Api
 
 def parseInt? (s : String) : Option Int :=
   if s.startsWith "-" then (s.drop 1).toString.toNat?.map (fun n => -(n : Int)) else s.toNat?.map (fun n => (n : Int))
@@ -127,6 +129,24 @@ def stepLine (st : St) (line : String) : St × String :=
       let post := updateAPIKeys pre
       (post, showImport pre post)
     | none => (st, "bad-op")
+  | "overlap" :: rest =>
+    -- Two overlapping imports. The model's import is one atomic step, which is the code as long as
+    -- `updateAPIKeys` takes the lock before it reads the option (`PB.Gen.Api.updateAPIKeysOrder`):
+    -- then the imports are serialised in the order of their configuration reads.
+    if updateAPIKeysOrder ≠ [.lock, .clear, .readConfig, .install] then
+      (st, "unmodelled: the key import is not one critical section")
+    else
+      let a := rest.takeWhile (· != "//")
+      let b := (rest.dropWhile (· != "//")).drop 1
+      match mapM? parseEntry a, mapM? parseEntry b with
+      | some cfgA, some cfgB =>
+        if (cfgA ++ cfgB).any (fun e => match e.expires with | .at _ => true | _ => false) || !rest.contains "//" then
+          (st, "bad-op")
+        else
+          let st1 := updateAPIKeys { st with cfg := cfgA }
+          let post := updateAPIKeys { st1 with cfg := cfgB }
+          (post, s!"keys {post.keys.length} 0 {post.keys.length}")
+      | _, _ => (st, "bad-op")
   | ["cfgchange"] =>
     let post := updateAPIKeys st
     (post, showImport st post)
